@@ -26,6 +26,17 @@ structure LazyView (ν α : Type) where
   shape : List (ν × Nat)
   get : List Nat → Option α
 
+/-- The `TensorRef` contract a view must meet: unique names, every length ≥ 1, and an element
+    at exactly the index tuples inside the shape. -/
+structure LazyView.Valid (v : LazyView ν α) : Prop where
+  shape : ValidShape v.shape
+  get : ∀ idx : List Nat, idx.length = v.shape.length →
+    (v.get idx).isSome = inBounds (v.shape.map (·.2)) idx
+
+/-- two views that report the same shape and the same elements -/
+def LazyView.Equiv (l r : LazyView ν α) : Prop :=
+  l.shape = r.shape ∧ ∀ idx : List Nat, idx.length = l.shape.length → l.get idx = r.get idx
+
 /-- a tensor value: shape and row-major elements -/
 structure TVal (ν α : Type) where
   shape : List (ν × Nat)
